@@ -1359,7 +1359,8 @@ phases_init(int inplace) {
 	PH_MIXED.depth = (vh_thorough && !inplace) ? 4 : 3;
 	for (s = 0; s < 8; s ++)
 		add_parse_op(&PH_MIXED, s, 0);
-	add_set_ops(&PH_MIXED, 3, 3, "01234", 7);
+	/* depth 4 (thorough, asan) drops the 17-byte value: 47 instead of 56 operations halves the level-4 fan-out */
+	add_set_ops(&PH_MIXED, 3, 3, (4 == PH_MIXED.depth) ? "0123" : "01234", 7);
 	add_num_op(&PH_MIXED, OP_SET_INT, 0, 0, -12);
 	add_num_op(&PH_MIXED, OP_SET_UINT, 1, 2, 100);
 	add_num_op(&PH_MIXED, OP_SET_INT, 1, 1, 0);
